@@ -1,6 +1,7 @@
 import KitProofs.Lemmas.Batcher
 import KitProofs.Lemmas.BatcherProgress
 import KitProofs.Lemmas.BatcherWedge
+import KitProofs.Lemmas.BatcherAccept
 import KitProofs.Props.C06
 /-!
 # C10 — batcher: last value per key once per quiet interval; departures never wedge it
@@ -388,6 +389,49 @@ theorem wedge_witness (c : Nat) :
   cases i with
   | zero => simp at hi; subst hi; exact huc
   | succ i => simp at hi
+
+/-! ## the trace acceptor (`KitModel/BatcherAccept.lean`, run by `kitdrv C10`) is sound
+
+`accepts cfg tr` is the state-set simulation the harness feeds every observed execution to: `onObs`
+applies the labels an observation stands for (`Stands`) or, for a pure check, keeps the states the
+check allows; `closeSet` closes under silent labels, merging states with the same normal form
+`strip`, with fuel (`overflow` ⇒ not accepted).  `Exec tr ls`: the labels `ls` are an execution
+described by `tr` — every label is silent or stands for the next observation. -/
+
+/-- **reduction_sound**: merging states by `strip` (ghost fields; buffer contents of a forwarder
+that has left its loop; everything about a `done` subscriber) is a simulation — a step from any
+state with the same normal form is matched by the SAME label from the state itself, into states
+with the same normal form.  (`strip_comm`: `strip` commutes with every label.) -/
+theorem reduction_sound {cfg : Cfg} {s t t' : State} {l : Label} (hst : strip s = strip t)
+    (h : Batcher.step cfg t l = some t') : ∃ s', Batcher.step cfg s l = some s' ∧ strip s' = strip t' :=
+  strip_sim hst h
+
+/-- **accepts_sound**: every state the acceptor keeps after a trace is the normal form of the end
+state of an execution of the LTS from `init` described by that trace. -/
+theorem accepts_sound (cfg : Cfg) (tr : List Obs) (x : State) (h : x ∈ (runA cfg tr).cur) :
+    ∃ ls s, Exec tr ls ∧ runFrom cfg Batcher.init ls = some s ∧ strip s = strip x :=
+  runA_kept cfg tr x h
+
+/-- **accepted_trace_has_run**: if the driver accepts a trace of a real execution, a run of
+`Batcher.step` from the initial state exists that the trace describes (each label silent or the
+label the next observation stands for); it ends in a reachable state, so every theorem of this file
+— and, through `processor_component_reachable`, every C06 theorem — applies to it. -/
+theorem accepted_trace_has_run (cfg : Cfg) (tr : List Obs) (h : accepts cfg tr = true) :
+    ∃ ls s, Exec tr ls ∧ runFrom cfg Batcher.init ls = some s ∧ Reach (Batcher.lts cfg) s := by
+  unfold accepts at h
+  simp only [Bool.and_eq_true, Bool.not_eq_eq_eq_not, Bool.not_true, List.isEmpty_eq_false_iff] at h
+  obtain ⟨x, hx⟩ := List.exists_mem_of_ne_nil _ h.2
+  obtain ⟨ls, s, he, hr, _⟩ := accepts_sound cfg tr x hx
+  exact ⟨ls, s, he, hr, reach_run Reach.init hr⟩
+
+-- non-vacuity (evaluated by the compiler; `decide` cannot run `Std.HashSet` in the kernel):
+#guard accepts ⟨true, 50, 10000000⟩
+  [.scall, .sret, .batch 7 100, .adv 4000000, .batch 7 101, .adv 14000000, .xsend 0 101, .recv 0 101, .ccall, .ccall,
+   .fexit 0, .chclosed 0, .cret, .cret, .quiet [0]] = true
+-- the superseded value, or a value before its due time, is rejected
+#guard accepts ⟨true, 50, 10000000⟩ [.scall, .sret, .batch 7 100, .adv 4000000, .recv 0 100] = false
+#guard accepts ⟨true, 50, 10000000⟩
+  [.scall, .sret, .batch 7 100, .adv 4000000, .batch 7 101, .adv 14000000, .xsend 0 100] = false
 
 /-! ## non-vacuity -/
 
